@@ -28,6 +28,11 @@
 // nearly equal, very long and hostile strings, topics equal to handler names; the same wiring values are also drawn
 // for a fifth of the cases of the random classes above). The scripted publisher records the topic argument of every
 // call: a Publish call made for a message is judged including the exact topic string (clause publish-topic).
+// panic-matrix/<site>, random-panic/<kind> (panicvals.go: the handler function, a middleware of the chain or the publisher
+// panics with values of every kind - numbers, bools, structs, pointers, slices, maps, funcs, channels, named types, Stringers,
+// error values, nil, run-time errors, a second panic raised while the first one unwinds; every one of them is "panicked");
+// async-matrix/<timing>, random-async/<kind> (async.go: the handler settles the message from a goroutine it started, before /
+// exactly around / after the moment the chain returns and the Router sends its own settlement; many messages per case).
 // The oracle is the same for all classes.
 package c02
 
@@ -744,7 +749,7 @@ func init() {
 		Level: "fault_enumeration",
 		Cases: func(tier string) int {
 			return matrixCases() + oldRandomCases(tier) + len(endCells) + len(multiCells) + endRandomCases(tier) + multiRandomCases(tier) +
-				len(nameCells) + namesRandomCases(tier) + len(topicCells) + topicsRandomCases(tier)
+				len(nameCells) + namesRandomCases(tier) + len(topicCells) + topicsRandomCases(tier) + extraCases(tier)
 		},
 		Rule: fmt.Sprintf("matrix part: %d cells = {%d handler behaviours: returns nil/empty/1/3 messages, error, error+1/3 messages, panic(string|error|nil), "+
 			"context.Canceled (bare/wrapped), Ack-then-{ok,ok+msg,err,err+msg,panic}, Nack-then-{ok,ok+1/3 msgs,err,err+msg,panic}, Ack-then-Nack} x {publisher: accept,error,panic(string),panic(nil),error on the first call for a message only} x "+
@@ -778,11 +783,28 @@ func init() {
 			"ends by Handler.Stop / Router.Close / Run context cancelled / subscriber closing its channel} x {message held after its own settlement, inside Publish} x {publisher accepts, rejects}; random part: 1..4 handlers "+
 			"of random kinds, publisher modes, decorators, middlewares and behaviours (3/4) or one handler whose subscription ends while 1..6 messages are held at random points (1/4). The scripted publisher records the topic "+
 			"argument of every call; a Publish call made for a message must carry exactly the string its handler was registered with (clause publish-topic, counters publish_calls_topic_compared / publish_calls_to_empty_topic). "+
+			"Class panic (%d enumerated cells + random part): the panic is raised with a value of every kind = {%d values: int, 0, float, NaN, bool, rune, uint8, complex, struct{}{}, struct, pointer to struct, nil pointer, "+
+			"[]byte, nil []byte, []int, array, map, nil map, func, nil func, chan, nil chan, named int / string types without methods, fmt.Stringer by value / by pointer (and the non-Stringer value of the latter), a Stringer whose "+
+			"String panics, string, \"\", string of printf verbs, 64 KiB string, errors.New, error struct / pointer / typed nil pointer / with empty text / whose Error panics, wrapped and joined errors, context.Canceled (bare, wrapped), "+
+			"context.DeadlineExceeded, io.EOF, panic(nil), nil interface values, run-time errors (nil map write, index / slice bounds out of range, nil dereference, integer division by zero, failed type assertion, close of a nil / closed "+
+			"channel, negative make length), a second panic raised by a deferred call while the first one unwinds, a recovered value panicked again} x raised in {the handler function (with / without its own Ack or Nack before), a router-level / "+
+			"handler-level middleware after the inner handler returned (whatever it returned), the Publish call made for the outputs} x {AddHandler+publisher, AddNoPublisherHandler, AddHandler+nil publisher}; 0..2 further messages follow the "+
+			"probe through the same handler; random part: the random one-handler batch (1..16 messages, barrier or free-running) in which 60%% of the messages panic with a random value at a random site. Judged by the rules of all classes: "+
+			"the message is nacked (unless the handler had settled it itself), nothing is published after a panic of the chain. "+
+			"Class async (%d enumerated cells + random part): the handler starts a goroutine that settles the message (Ack or Nack) while the chain goes on and returns = {chain returns nil, 1 message (publisher accepts / rejects / nil publisher), "+
+			"error, error+1 message, panics} x {own call Ack, Nack} x {own call made before the handler returns; spin barrier opened by the handler's last statement, by the last statement of the Publish call, at hook point "+
+			"router.handle.before_settle right before the Router's Ack; busy-polling Acked()/Nacked() and calling as soon as the Router's settlement is visible; blocking until then} x {0, 2 pass-through middlewares} x handler kinds; "+
+			"32..200 (thorough ..800) messages per case, sent one after another by 1..4 concurrent lanes; for the spin-barrier timings both sides first make sure by a ping that the other one is on a processor, then burn a number of "+
+			"loop iterations that is steered by the outcome of the earlier contests (own call won -> it waits longer; plus random sweeps 0..8191 iterations and Gosched jitter), so that the handler's call and the Router's call coincide as "+
+			"closely as the machine allows (counters async_contests, async_contests_won_by_handler / _by_router, async_contests_with_both_goroutines_running). Judged after Router.Close returned (every settlement call of the Router has "+
+			"been made): exactly one of Acked()/Nacked() is closed (both-settled, settles); if the handler's own call returned true the final state is its kind (self-settlement-overridden); if it returned false the final state is the "+
+			"settlement the Router owes by the Ack-iff rule; a call made after a settlement was visible returns true iff it is of the same kind (self-settlement); nothing settles the message before the handler function returned unless "+
+			"its own goroutine did; no Ack is visible inside Publish before the handler's goroutine started its call. "+
 			"A case is non-trivial when every emitted message "+
 			"was taken, handled and judged (and, for multi-message barrier cases, >=2 handlers were observed in flight together; for class end, >=1 message was in flight when the subscription "+
 			"ended and the end was observed to have propagated; for classes multi and names, >=2 handlers handled messages; for class names, "+
 			"additionally >=1 handler has an outcome-changing middleware of its own and >=1 has no middleware of its own); distinct = distinct "+
-			"(cell, multiplicity) for the matrices, distinct (class, configuration, per-message behaviours, settlement order) for random batches.", len(cells), len(hbehs), len(mwMatrix), len(endCells), len(multiCells), len(nameCells), len(topicCells)),
+			"(cell, multiplicity) for the matrices, distinct (class, configuration, per-message behaviours, settlement order) for random batches.", len(cells), len(hbehs), len(mwMatrix), len(endCells), len(multiCells), len(nameCells), len(topicCells), len(panicCells), len(panicVals)-1, len(asyncCells)),
 		Assumptions: []string{
 			"panic(nil) follows the Go >= 1.21 semantics of the harness module (recover() returns *runtime.PanicNilError)",
 			"a message counts as taken by the Router when the scripted subscriber's channel send completed (it was received by the Router's subscriber decorator)",
@@ -794,6 +816,8 @@ func init() {
 			"class names: at most one result-changing and at most one self-settling middleware per chain, so that the expected outcome does not depend on the nesting order of middlewares (another property); a settlement made by a middleware of the chain counts as 'a settlement the handler made itself'",
 			"class names: registering a late handler under the name of a handler that was stopped earlier (classes names-reuse/*, clause name-reuse-inherits-middleware) is part of class random-names: the new handler's chain consists of the router-level middlewares, its own and its function only (the pinned Router also wrapped the stopped handler's middlewares around it; fixed in 2434b2b)",
 			"class topics: every string is a legal subscribe / publish topic for the Router (AddHandler godoc: 'subscribeTopic is a topic from which handler will receive messages', 'publishTopic is a topic to which router will produce messages returned by handlerFunc'; neither is interpreted by the Router, and watermill itself registers handlers with publish topic \"\" and a real publisher in gochannel.FanOut); 'accepted by the handler's publisher' is judged on the call Publish(publishTopic, outputs...) with exactly the string given to AddHandler; handlers that subscribe to one topic name get subscriber instances of their own (the harness identifies the subscription of a handler by subscriber instance + topic), publishers may be shared",
+			"class panic: 'panicked' covers every value given to panic, and run-time panics; the Router's logger is watermill.NopLogger (formatting the value is the Router's business: a panic value whose String / Error method panics is formatted by fmt without a new panic on the pinned tree); runtime.Goexit is not a panic and is not used",
+			"class async: a settlement made by a goroutine the handler function started counts as 'a settlement the handler made itself'; Message.Ack / Message.Nack may be called from any goroutine (they are guarded by the message's mutex; godoc: 'Ack is not blocking. Ack is idempotent. False is returned, if Nack is already sent'), so a call that returned true has settled the message and must not be overridden, and after both calls exactly one of the two channels is closed. How closely the two calls coincide depends on the machine (cores, load): that only decides how often the narrow interleavings are reached, never a verdict; wall-clock readings are used only to skip the feedback of contests in which one side was evidently descheduled",
 			"class multi: 'the handler's publisher' is the instance passed to AddHandler, seen through whatever decorators the Router was given; publisher decorators used by the harness do not change message values",
 		},
 		Run: run,
@@ -806,8 +830,10 @@ func init() {
 type mspec struct {
 	H    int    `json:"h"`
 	P    int    `json:"p"`
-	Hd   int    `json:"hd,omitempty"`   // index of the handler whose subscription emits the message
-	Hold string `json:"hold,omitempty"` // class end: where the message is held when the subscription ends
+	Hd   int    `json:"hd,omitempty"`    // index of the handler whose subscription emits the message
+	Hold string `json:"hold,omitempty"`  // class end: where the message is held when the subscription ends
+	PV   int    `json:"pv,omitempty"`    // class panic: index into panicVals of the value the message's panic is raised with
+	PVAt string `json:"pv_at,omitempty"` // class panic: where it is raised (handler function, middleware, Publish call)
 	Y1   int    `json:"-"`
 	Y2   int    `json:"-"`
 }
@@ -848,6 +874,8 @@ type config struct {
 	Barrier bool
 	YieldP  float64
 	Specs   []mspec
+
+	PanicVals bool // class panic
 
 	// several handlers (class multi); empty = one handler of kind Kind with one publisher and one subscriber
 	Handlers []hspec
@@ -1037,7 +1065,11 @@ func run(e *vlib.Env) vlib.Result {
 			res.Sig = vlib.Sig("topics-matrix", idx)
 			return res
 		}
-		return runBatch(e, topicsCase(e, nil))
+		idx -= len(topicCells)
+		if idx < topicsRandomCases(e.Tier) {
+			return runBatch(e, topicsCase(e, nil))
+		}
+		return runExtra(e, idx-topicsRandomCases(e.Tier))
 	}
 	cfg := randomMulti(e.R, e.ID(), 2)
 	cfg.Class = "random-multi/" + cfg.PubMode
@@ -1294,6 +1326,8 @@ func expect(kind string, mw []string, h hbeh, pb string) expectation {
 		if panicked {
 			panicked, failed = false, true
 		}
+	case "panicafter":
+		panicked, outs = true, 0
 	}
 	x.ChainErr = panicked || failed
 	x.NOuts = outs
@@ -1562,6 +1596,11 @@ func (st *state) handle(hd int, m *message.Message) ([]*message.Message, error) 
 		return outs, context.Canceled
 	case "err-wrapped-canceled":
 		return outs, fmt.Errorf("c02: scripted handler error: %w", context.Canceled)
+	}
+	if sp.PVAt == pvAtHandler {
+		panicVals[sp.PV].Do()
+	}
+	switch h.End {
 	case "panic-str":
 		panic("c02: scripted handler panic")
 	case "panic-err":
@@ -1641,6 +1680,25 @@ func (st *state) middleware(name string, owner int) message.HandlerMiddleware {
 					st.mu.Unlock()
 				}
 				return nil, err
+			}
+		case "panicafter":
+			// panics after the inner handler finished, with the value drawn for the message
+			return func(m *message.Message) ([]*message.Message, error) {
+				i, known, foreign := enter(m)
+				next(m)
+				v := pvDefaultMW
+				if known {
+					st.mu.Lock()
+					if sp := st.cfg.Specs[i]; sp.PVAt == pvAtMW {
+						v = sp.PV
+					}
+					if !foreign {
+						st.recs[i].outs = nil // still attributed to the message if they are published anyway
+					}
+					st.mu.Unlock()
+				}
+				panicVals[v].Do()
+				return nil, nil
 			}
 		case "swallow":
 			return func(m *message.Message) ([]*message.Message, error) {
@@ -1767,6 +1825,11 @@ func (st *state) script(pub int, no int, topic string, msgs []*message.Message) 
 		pr.endStamp = vlib.Now()
 	}
 	st.mu.Unlock()
+	if (beh == "panic-str" || beh == "panic-nil") && owner >= 0 {
+		if sp := st.cfg.Specs[owner]; sp.PVAt == pvAtPub {
+			panicVals[sp.PV].Do()
+		}
+	}
 	switch beh {
 	case "error-once":
 		return errScriptedPublish
@@ -2343,8 +2406,16 @@ func runBatch(e *vlib.Env, cfg config) (res vlib.Result) {
 		}
 		judged++
 		res.Count("messages", 1)
+		if spc.PVAt != "" {
+			res.Count("messages_with_drawn_panic_value", 1)
+			res.Count("panic_value_drawn_for_"+map[string]string{pvAtHandler: "handler", pvAtMW: "middleware", pvAtPub: "publisher"}[spc.PVAt], 1)
+		}
 		res.Events += 2*r.entries + 1
 		desc := fmt.Sprintf("message %d/%d (handler=%s publisher=%s kind=%s middleware=%v)", i, n, h.Name, ownBeh, kind, cfg.MW)
+		if spc.PVAt != "" {
+			desc = fmt.Sprintf("message %d/%d (handler=%s publisher=%s kind=%s middleware=%v; panic value %s: raised in the %s)", i, n, h.Name, ownBeh, kind, cfg.MW,
+				panicVals[spc.PV].Name, map[string]string{pvAtHandler: "handler function", pvAtMW: "panicafter middleware", pvAtPub: "Publish call"}[spc.PVAt])
+		}
 		if nh > 1 {
 			desc = fmt.Sprintf("message %d/%d (handler #%d of %d: %s, its publisher: instance %d of %v mode %q decorators %v -> %s, kind=%s middleware=%v)",
 				i, n, spc.Hd, nh, h.Name, ownPub, len(cfg.Pubs), cfg.PubMode, cfg.PubDecos, ownBeh, kind, chain)
@@ -2669,9 +2740,9 @@ func runBatch(e *vlib.Env, cfg config) (res vlib.Result) {
 	}
 	var shape []string
 	for _, s := range cfg.Specs {
-		shape = append(shape, fmt.Sprintf("%d/%d/%d/%s", s.Hd, s.H, s.P, s.Hold))
+		shape = append(shape, fmt.Sprintf("%d/%d/%d/%s%s", s.Hd, s.H, s.P, s.Hold, pvName(s)))
 	}
-	if nh == 1 && cfg.End == "" && cfg.Wiring == "" {
+	if nh == 1 && cfg.End == "" && cfg.Wiring == "" && !cfg.PanicVals {
 		shape = shape[:0]
 		for _, s := range cfg.Specs {
 			shape = append(shape, fmt.Sprintf("%d/%d", s.H, s.P))
